@@ -160,7 +160,7 @@ func classify(v string) string {
 // ---- orchestrator arm ----
 
 func unitC01orch(e common.Env, p *common.Part) {
-	p.Rule = "BLS key generation through real LoudScheme / SilentScheme objects (real disc.Member, rbc.Receiver, msg.Box) on the simulated network in random mode with five delivery policies and staggered starts, node id = party id (non-contiguous, <256), 2<=t<=n<=5 (thorough 6); then every subset of size >= t verified as in the direct arm; distinct key = (n, t, mode, ids, delivery-order hash); non-trivial when key generation completed and >= 1 aggregate verified"
+	p.Rule = "BLS key generation through real LoudScheme / SilentScheme objects (real disc.Member, rbc.Receiver, msg.Box) on the simulated network in random mode with five delivery policies and staggered starts (silent mode: every second run with a member picker that lists the members in a non-ascending order), node id = party id (non-contiguous, <256), 2<=t<=n<=5 (thorough 6); then every subset of size >= t verified as in the direct arm; distinct key = (n, t, mode, ids, delivery-order hash); non-trivial when key generation completed and >= 1 aggregate verified"
 	maxN := e.Pick(5, 6)
 	reps := e.Pick(3, 40)
 	idx := 0
@@ -210,7 +210,7 @@ func runC01orch(rng *rand.Rand, ids []uint16, t int, silent bool, idx int, scale
 		m[i] = i
 	}
 	pols := []simnet.Policy{simnet.Uniform, simnet.StarveSender(ids[rng.Intn(n)]), simnet.PreferNewest, simnet.Burst(), simnet.ByReceiver}
-	c := cluster.New(cluster.Config{Map: m, Silent: silent, Threshold: t - 1,
+	c := cluster.New(cluster.Config{Map: m, Silent: silent, Threshold: t - 1, PermutePicks: idx%2 == 1,
 		KGF: func(node uint16) tss.KeyGenerator { return &bls.TBLS{Party: node, Logger: common.Nolog{}} },
 		SF:  func(node uint16) tss.Signer { return &bls.TBLS{Party: node, Logger: common.Nolog{}} }})
 	go c.Net.RunRandom(rng, pols[idx%len(pols)])
